@@ -28,10 +28,16 @@ def _closures(prog, factory, name):
 
 def _is_last(conds):
     for c in conds:
+        neg = False
+        while c[0] in ("not", "unop"):
+            if c[0] == "not":
+                c, neg = c[1], not neg
+            elif c[1] == "not":
+                c, neg = c[2], not neg
+            else:
+                break
         if c[0] == "param" and c[2] == "is_last_period":
-            return True
-        if c[0] == "not" and c[1][0] == "param" and c[1][2] == "is_last_period":
-            return False
+            return not neg
     return None
 
 
